@@ -36,6 +36,9 @@ TRUSTED_BASE = [
     "address strings of scenario documents (loader contracts): str((a, b)) of two ints is a canonical key, eval() is a pure "
     "function of the string that yields a pair or fails, and inverts str() on canonical keys (uninterpreted functions "
     "ADDR_STR / eval_fst / eval_snd with type tags; pyvc/builtins.py)",
+    "strings with a symbolic part (generator contracts): an f-string with one symbolic name and `a + b` on names are "
+    "functions of their parts (uninterpreted str_format1 / str_concat); nothing else is assumed about them",
+    "while loops under a loop contract are proved PARTIALLY correct (no variant: termination is not claimed)",
     "induction principle: lemma obligations named `lemma.*.induction-base` / `-step` are closed formulas over a fresh "
     "function symbol; 'base and step hold, hence the property holds for every index' is the meta-step (used for the "
     "block-start function of load_action_list)",
